@@ -95,8 +95,9 @@ type step struct {
 
 func seqProgram(r *ev.Run, id string, i int) {
 	g := rng.For(r.Seed, "c11/seq", i)
-	n := rng.Pick(g, []int{0, 1, 2, 3, 4, 5, 5, 10, 100})
-	m := rng.Pick(g, []int{0, 1, 2, 3, 4, 5, 7, 100})
+	// counts far beyond anything a program reaches are still the counts that were asked for
+	n := rng.Pick(g, []int{0, 1, 2, 3, 4, 5, 5, 10, 100, 0, 1, 2, 3, 4, 5, 5, 10, 100, 1 << 32, 1<<32 + 1, 1 << 40})
+	m := rng.Pick(g, []int{0, 1, 2, 3, 4, 5, 7, 100, 0, 1, 2, 3, 4, 5, 7, 100, 1 << 32, 1<<32 + 2, 1<<33 + 3})
 	tick := rng.Pick(g, []time.Duration{0, 1, 10, 10, 1000, time.Second, time.Second})
 	thr := rng.Pick(g, []zapcore.Level{zapcore.DebugLevel, zapcore.DebugLevel, zapcore.InfoLevel, zapcore.WarnLevel})
 	al := zap.NewAtomicLevelAt(thr) // the threshold moves during the program: budget must not be consumed while a level is disabled
